@@ -6,7 +6,21 @@ import ast
 
 from ..cfg import CFG, dominators
 from ..model import AnalysisError, chain, unparse
+from ..normalize import expanded
 from ..report import RuleResult
+from ._c10_util import (
+    FALSY,
+    TOPLEVEL,
+    Paths,
+    bind_args,
+    callee_of,
+    const_value,
+    entered_only_through,
+    entry_roots,
+    helper_closure,
+    is_private_helper,
+    mode_sources,
+)
 
 WRITABLE = {"r+", "a", "w", "w-", "x"}
 H5_MUTATORS = {"create_group", "create_dataset", "require_group", "require_dataset", "create_virtual_dataset"}
@@ -40,6 +54,66 @@ def _refs_to(ctx, target_cls):
     return out
 
 
+def _gateway_call(fn, call) -> bool:
+    """`call` is self._io_call(...) inside a Workspace method."""
+    f = call.func
+    return (
+        isinstance(f, ast.Attribute)
+        and f.attr == "_io_call"
+        and isinstance(f.value, ast.Name)
+        and fn.cls is not None
+        and f.value.id == fn.self_name
+        and any((c if isinstance(c, str) else c.name) == "Workspace" for c in fn.cls.mro)
+    )
+
+
+def _mode_of(ctx, fn, call):
+    """(mode constant | None, dynamic?) of the keyword mode= of a gateway call: a literal, or a local / module / class
+    level name bound once to a literal."""
+    for kw in call.keywords:
+        if kw.arg == "mode":
+            c = const_value(ctx.p, fn, kw.value)
+            if c is not None:
+                return c.value, False
+            return None, True
+    return None, False
+
+
+def _forwarder_modes(ctx, fn, call):
+    """`call` is self.<m>(H5Writer.x, ...) where Workspace.<m> does nothing with its first parameter but hand it to
+    self._io_call(<it>, ..., mode=<constant>): the modes of those gateway calls (a thin wrapper around the gateway)."""
+    f = call.func
+    if not (isinstance(f, ast.Attribute) and isinstance(f.value, ast.Name) and fn.cls is not None and f.value.id == fn.self_name):
+        return None
+    m = fn.cls.lookup(f.attr)
+    if not m or m[1] != "method" or m[2].kind != "method":
+        return None
+    target = m[2]
+    if any((kw.arg == "mode") for kw in call.keywords):
+        return None
+    params = target.params[1:]
+    if not params:
+        return None
+    first = params[0]
+    parents = {}
+    for n in ast.walk(target.node):
+        for c in ast.iter_child_nodes(n):
+            parents[c] = n
+    if any(isinstance(n, ast.Name) and n.id == first and not isinstance(n.ctx, ast.Load) for n in ast.walk(target.node)):
+        return None
+    modes = []
+    for n in ast.walk(target.node):
+        if isinstance(n, ast.Name) and n.id == first:
+            par = parents.get(n)
+            if not (isinstance(par, ast.Call) and par.args and par.args[0] is n and _gateway_call(target, par)):
+                return None
+            mode, dyn = _mode_of(ctx, target, par)
+            if dyn:
+                return None
+            modes.append(mode if mode is not None else "r")
+    return modes or None
+
+
 def gate_sites(ctx):
     """(fn, call, writer function name, mode constant|None, kind) for every
     reference to an H5Writer member outside io/h5_writer.py."""
@@ -53,24 +127,14 @@ def gate_sites(ctx):
         member = par.attr
         gp = parents.get(par)
         if isinstance(gp, ast.Call) and gp.args and gp.args[0] is par:
-            f = gp.func
-            if (
-                isinstance(f, ast.Attribute)
-                and f.attr == "_io_call"
-                and isinstance(f.value, ast.Name)
-                and f.value.id == fn.self_name
-                and fn.cls is not None
-                and fn.cls.name == "Workspace"
-            ):
-                mode = None
-                dyn = False
-                for kw in gp.keywords:
-                    if kw.arg == "mode":
-                        if isinstance(kw.value, ast.Constant):
-                            mode = kw.value.value
-                        else:
-                            dyn = True
+            if _gateway_call(fn, gp) and fn.cls.name == "Workspace":
+                mode, dyn = _mode_of(ctx, fn, gp)
                 sites.append((fn, gp, member, mode, "dynamic-mode" if dyn else "io_call"))
+                continue
+            fw = _forwarder_modes(ctx, fn, gp) if fn.cls is not None and fn.cls.name == "Workspace" else None
+            if fw:
+                bad = [m for m in fw if m not in ("r+", "a")]
+                sites.append((fn, gp, member, bad[0] if bad else fw[0], "io_call"))
                 continue
         if isinstance(gp, ast.Call) and gp.func is par:
             sites.append((fn, gp, member, None, "direct-call"))
@@ -93,7 +157,7 @@ def rule_gate(ctx) -> RuleResult:
         if kind == "io_call" and mode in ("r+", "a"):
             res.inst(inst, ok=True)
             continue
-        if kind == "direct-call" and member == "init_geoh5" and _fresh_bytesio_exception(fn, node):
+        if kind == "direct-call" and member == "init_geoh5" and _fresh_bytesio_exception(ctx, fn, node):
             res.inst(inst + " (named exception: fresh in-memory BytesIO file created two statements above)", nontrivial=True)
             res.notes.append(f"{where}: direct H5Writer.init_geoh5 on the fresh BytesIO file — accepted exception")
             continue
@@ -116,20 +180,83 @@ def rule_gate(ctx) -> RuleResult:
     return res
 
 
-def _fresh_bytesio_exception(fn, call) -> bool:
-    """The call sits in Workspace.h5file's setter, in a block that first binds
-    self._h5file = BytesIO() and self._geoh5 = h5py.File(self.h5file, 'a')."""
-    if not (fn.cls and fn.cls.name == "Workspace" and fn.kind == "setter" and fn.prop == "h5file"):
+def _is_bytesio_call(p, fn, e) -> bool:
+    if not isinstance(e, ast.Call) or e.args or e.keywords:
         return False
-    for n in ast.walk(fn.node):
-        if isinstance(n, ast.If):
-            texts = [unparse(s) for s in n.body]
-            if any(call in list(ast.walk(s)) for s in n.body):
-                a = [i for i, t in enumerate(texts) if t == "self._h5file = BytesIO()"]
-                b = [i for i, t in enumerate(texts) if t.startswith("self._geoh5 = h5py.File(self.h5file,")]
-                c = [i for i, s in enumerate(n.body) if call in list(ast.walk(s))]
-                return bool(a and b and c and a[0] < b[0] < c[0])
-    return False
+    r = p.resolve_expr(fn.module, e.func)
+    return bool(r and r[0] == "external" and r[1] == "io.BytesIO")
+
+
+def _is_h5py_file(p, fn, call) -> bool:
+    if not isinstance(call, ast.Call):
+        return False
+    ch = chain(call.func)
+    if not ch or ch[-1] != "File":
+        return False
+    r = p.resolve_expr(fn.module, call.func)
+    return bool(r and r[0] == "external" and r[1] == "h5py.File") or ch[0] == "h5py"
+
+
+def _self_attr(fn, e, *names) -> bool:
+    return isinstance(e, ast.Attribute) and e.attr in names and isinstance(e.value, ast.Name) and e.value.id == fn.self_name and fn.self_name is not None
+
+
+def _h5file_setter(f) -> bool:
+    return f.cls is not None and f.cls.name == "Workspace" and f.kind == "setter" and f.prop == "h5file"
+
+
+def _fresh_bytesio_exception(ctx, fn, call) -> bool:
+    """The call runs only as part of Workspace.h5file's setter (the setter itself or a private helper entered only
+    from it), on the handle self.geoh5, and every path to it first binds self._h5file = BytesIO() and then
+    self._geoh5 = h5py.File(<that BytesIO>, ...): the file written to is a fresh in-memory one."""
+    p = ctx.p
+    if not (fn.cls and fn.cls.name == "Workspace" and entered_only_through(ctx, fn, _h5file_setter)):
+        return False
+    if not call.args or not _self_attr(fn, expanded(call.args[0], fn.node), "geoh5", "_geoh5"):
+        return False
+    g = CFG(fn.node)
+    dom = dominators(g)
+
+    def own(n):
+        a = n.ast
+        if a is None or isinstance(a, list):
+            return []
+        if n.kind == "with":
+            return [x for it in a.items for x in ast.walk(it.context_expr)]
+        if n.kind == "except":
+            return []
+        return list(ast.walk(a))
+
+    site = [n for n in g.nodes if n in dom and any(x is call for x in own(n))]
+    if not site:
+        return False
+
+    def stores(n, attr, pred):
+        a = n.ast
+        return (
+            n.kind == "stmt"
+            and isinstance(a, (ast.Assign, ast.AnnAssign))
+            and a.value is not None
+            and any(_self_attr(fn, t, attr) for t in (a.targets if isinstance(a, ast.Assign) else [a.target]))
+            and pred(expanded(a.value, fn.node))
+        )
+
+    def fresh_file(v):
+        if not (_is_h5py_file(p, fn, v) and v.args):
+            return False
+        return _self_attr(fn, v.args[0], "h5file", "_h5file") or _is_bytesio_call(p, fn, v.args[0])
+
+    for c in site:
+        opened = [b for b in dom[c] if b is not c and stores(b, "_geoh5", fresh_file)]
+        if not any(stores(a, "_h5file", lambda v: _is_bytesio_call(p, fn, v)) for b in opened for a in dom[b] if a is not b):
+            return False
+    return True
+
+
+def _handle_mode_facts(fn) -> dict:
+    """Assumption "the handle of the workspace was opened read-only", as facts on expressions of a Workspace method."""
+    s = fn.self_name
+    return {f"{s}.geoh5.mode": "r", f"{s}._geoh5.mode": "r"}
 
 
 def rule_guard(ctx) -> RuleResult:
@@ -142,103 +269,65 @@ def rule_guard(ctx) -> RuleResult:
         floor=3,
     )
     p = ctx.p
-    io = p.func("Workspace._io_call")
-    fun = io.params[1]
-    g = CFG(io.node)
-    dom = dominators(g)
-    calls = [
-        n for n in g.nodes
-        if n.ast is not None and not isinstance(n.ast, list)
-        and any(isinstance(c, ast.Call) and isinstance(c.func, ast.Name) and c.func.id == fun for c in ast.walk(n.ast))
-    ]
-    calls = [c for c in calls if c in dom]  # reachable ones
+    raw = p.func("Workspace._io_call")
+    io = ctx.view(raw)
+    if len(raw.params) < 2:
+        raise AnalysisError("Workspace._io_call: the function parameter was not found")
+    fun = raw.params[1]
+    a = raw.node.args
+    if "mode" not in [x.arg for x in a.posonlyargs + a.args + a.kwonlyargs]:
+        raise AnalysisError("Workspace._io_call: the parameter mode= (passed by the gateway sites) was not found")
+    base = Paths(io, project=p)
+
+    def is_fun_call(x):
+        return isinstance(x, ast.Call) and isinstance(x.func, ast.Name) and base.text(x.func) == fun
+
+    live = base.g.reachable()
+    calls = [(n, hits) for n, hits in base.nodes_with(is_fun_call) if n in live]
     if not calls:
         raise AnalysisError("Workspace._io_call: the call fun(...) was not found")
     used_modes = {m for (_, _, _, m, k) in gate_sites(ctx) if k == "io_call" and m}
-    for c in calls:
-        call = next(x for x in ast.walk(c.ast) if isinstance(x, ast.Call) and isinstance(x.func, ast.Name) and x.func.id == fun)
-        first = unparse(call.args[0]) if call.args else ""
-        ok_handle = first == "self.geoh5"
+    # for every requested mode: is the call still reachable when the handle is read-only?
+    # (decided on paths: the guard may be one merged test, guard clauses, negated, or live in a private helper)
+    universe = ["r+", "a"] + sorted((WRITABLE | used_modes | {"r"}) - {"r+", "a"})
+    reach_ids = {}
+    for m in universe:
+        pm = Paths(io, texts=_handle_mode_facts(io), names={"mode": m}, project=p)
+        reach_ids[m] = {n.id for n in pm.reachable()}
+    s = io.self_name
+    for c, hits in calls:
+        call = hits[0]
+        first = base.text(call.args[0]) if call.args else ""
+        ok_handle = first == f"{s}.geoh5"
         res.inst(f"_io_call: {unparse(call)[:50]} passes the raising property self.geoh5", ok=ok_handle)
         if not ok_handle:
             res.find("Workspace", "_io_call", f"fun called with {first}", f"{io.module.relpath}:{c.lineno}",
                      "the writer/reader receives something else than the raising property self.geoh5")
-        guards = []
-        for t in dom[c]:
-            if t.kind != "test":
-                continue
-            modes = _guard_modes(t.ast)
-            if modes is None:
-                continue
-            # the true edge must only lead to raise; the call must be reached through the false edge
-            true_succ = [m for m, lab in t.succ if lab == "true"]
-            from ..cfg import find_path
-
-            leaks = any(find_path(g, s, lambda n, c=c: n is c) or s is c for s in true_succ)
-            raises = all(_only_raises(g, s) for s in true_succ)
-            if not leaks and raises:
-                guards.append((t, modes))
-        ok = bool(guards) and all(used_modes <= set(m) for _, m in guards[:1])
-        res.inst(f"_io_call: read-only guard dominates {unparse(call)[:40]}; guard modes {guards[0][1] if guards else None} ⊇ used {sorted(used_modes)}",
+        refused = [m for m in universe if c.id not in reach_ids[m]]
+        ok = bool(refused) and used_modes <= set(refused)
+        res.inst(f"_io_call: with a read-only handle the call {unparse(call)[:40]} is unreachable for the requested modes {refused} ⊇ used {sorted(used_modes)}",
                  nontrivial=True, ok=ok)
-        if not guards:
+        if not refused:
             res.find("Workspace", "_io_call", "read-only guard does not dominate fun(...)", f"{io.module.relpath}:{c.lineno}",
                      "no test of the form `mode in [...] and self.geoh5.mode == 'r'` -> raise dominates the call to the "
                      "writer: a write can reach a file opened read-only")
         elif not ok:
-            res.find("Workspace", "_io_call", f"guard modes {guards[0][1]} miss {sorted(used_modes - set(guards[0][1]))}",
-                     f"{io.module.relpath}:{guards[0][0].lineno}",
+            res.find("Workspace", "_io_call", f"guard modes {refused} miss {sorted(used_modes - set(refused))}",
+                     f"{io.module.relpath}:{c.lineno}",
                      "a mode constant used at a gateway site is not in the guard's list, so that write is not refused")
-    # raising property
-    gp = p.func("Workspace.geoh5")
-    gg = CFG(gp.node)
-    dd = dominators(gg)
-    rets = [n for n in gg.nodes if n.kind == "return"]
-    ok = bool(rets)
-    for r in rets:
-        has = False
-        for t in dd[r]:
-            if t.kind == "test" and unparse(t.ast) == "not self._geoh5":
-                ts = [m for m, lab in t.succ if lab == "true"]
-                if all(_only_raises(gg, s) for s in ts):
-                    has = True
-        ok = ok and has
+    # raising property: no return is reachable when the stored handle is closed / missing (falsy)
+    gp = ctx.view(p.func("Workspace.geoh5"))
+    gs = gp.self_name
+    stores_handle = any(_self_attr(gp, x, "_geoh5") and not isinstance(x.ctx, ast.Load) for x in ast.walk(gp.node))
+    pg = Paths(gp, texts={} if stores_handle else {f"{gs}._geoh5": FALSY}, project=p)
+    rets = [n for n in pg.g.nodes if n.kind == "return" and n in pg.g.reachable()]
+    reach = pg.reachable()
+    ok = bool(rets) and not any(r in reach for r in rets)
     res.inst("Workspace.geoh5: `if not self._geoh5: raise` dominates the return", nontrivial=True, ok=ok)
     if not ok:
         res.find("Workspace", "geoh5", "closed-file raise does not dominate return", gp.where,
                  "the handle property can hand out a closed/False handle")
     return res
-
-
-def _guard_modes(test):
-    if not (isinstance(test, ast.BoolOp) and isinstance(test.op, ast.And)):
-        return None
-    modes = None
-    ro = False
-    for v in test.values:
-        if isinstance(v, ast.Compare) and len(v.ops) == 1:
-            if isinstance(v.ops[0], ast.In) and unparse(v.left) == "mode" and isinstance(v.comparators[0], (ast.List, ast.Tuple, ast.Set)):
-                modes = [e.value for e in v.comparators[0].elts if isinstance(e, ast.Constant)]
-            if isinstance(v.ops[0], ast.Eq) and unparse(v.left) in ("self.geoh5.mode", "self._geoh5.mode") and unparse(v.comparators[0]) == "'r'":
-                ro = True
-    return modes if (modes is not None and ro) else None
-
-
-def _only_raises(g, start) -> bool:
-    """Every path from `start` ends in the exceptional exit (or a handler) without reaching the normal exit."""
-    seen = set()
-    stack = [start]
-    while stack:
-        n = stack.pop()
-        if n in seen:
-            continue
-        seen.add(n)
-        if n is g.exit:
-            return False
-        if n.kind == "raise":
-            continue
-        stack.extend(m for m, _ in n.succ)
-    return True
 
 
 def rule_who(ctx) -> RuleResult:
@@ -256,6 +345,14 @@ def rule_who(ctx) -> RuleResult:
     file_ok = {"Workspace.open", "Workspace.h5file[setter]", "utils.fetch_h5_handle", "shared.utils.fetch_h5_handle"}
     geoh5_store_ok = {"__init__", "open", "h5file"}
     geoh5_use_ok = {"close", "open", "geoh5", "h5file", "_io_call"}
+
+    # a site allowed in a gateway member stays allowed in a private helper that is entered only from such members
+    def via(fn, allowed) -> bool:
+        return entered_only_through(ctx, fn, allowed)
+
+    def ws_member(names):
+        return lambda f: f.cls is not None and ws in f.cls.mro and (f.prop or f.name) in names
+
     n_scanned = 0
     # positive example for the matcher (zero-count rule): the writer itself must match
     pos = 0
@@ -287,7 +384,7 @@ def rule_who(ctx) -> RuleResult:
                 ch = chain(n.func)
                 if ch and ch[-1] == "File" and (ch[0] == "h5py" or (len(ch) == 1 and p.resolve_name(fn.module, "File") == ("external", "h5py.File"))):
                     qn = fn.qualname
-                    ok = qn in file_ok
+                    ok = via(fn, lambda f: f.qualname in file_ok)
                     res.inst(f"{qn}:{n.lineno} h5py.File({', '.join(unparse(a) for a in n.args)})", ok=ok)
                     if not ok:
                         res.find(fn.cls.name if fn.cls else fn.module.short, fn.prop or fn.name, "h5py.File( outside the gateway",
@@ -295,21 +392,23 @@ def rule_who(ctx) -> RuleResult:
                 # writable mode constants outside workspace.py / h5_writer.py
                 if fn.module is not wmod and fn.module is not ws.module:
                     for kw in n.keywords:
-                        if kw.arg == "mode" and isinstance(kw.value, ast.Constant) and kw.value.value in WRITABLE:
-                            res.inst(f"{fn.qualname}:{n.lineno} mode={kw.value.value!r}", ok=False)
+                        kv = const_value(p, fn, kw.value) if kw.arg == "mode" else None
+                        if kv is not None and isinstance(kv.value, str) and kv.value in WRITABLE:
+                            res.inst(f"{fn.qualname}:{n.lineno} mode={kv.value!r}", ok=False)
                             res.find(fn.cls.name if fn.cls else fn.module.short, fn.prop or fn.name,
-                                     f"{unparse(n.func)}(mode={kw.value.value!r})", f"{fn.module.relpath}:{n.lineno}",
+                                     f"{unparse(n.func)}(mode={kv.value!r})", f"{fn.module.relpath}:{n.lineno}",
                                      "a library helper requests a writable mode on the caller's workspace")
             # Workspace._mode is bound once, in __init__; open() is never called with a writable constant
             if isinstance(n, ast.Attribute) and n.attr == "_mode" and isinstance(n.ctx, ast.Store) and fn.cls is not None and ws in fn.cls.mro:
-                ok = fn.name == "__init__"
+                ok = via(fn, ws_member({"__init__"}))
                 res.inst(f"Workspace.{fn.prop or fn.name}:{n.lineno} stores self._mode", ok=ok)
                 if not ok:
                     res.find("Workspace", fn.prop or fn.name, "stores self._mode", f"{fn.module.relpath}:{n.lineno}",
                              "the configured mode of a workspace changes after construction: a later open() may upgrade a read-only workspace")
             if isinstance(n, ast.Call) and isinstance(n.func, ast.Attribute) and n.func.attr == "open" and fn.module is ws.module:
                 for a in list(n.args) + [kw.value for kw in n.keywords if kw.arg == "mode"]:
-                    if isinstance(a, ast.Constant) and a.value in WRITABLE:
+                    a = const_value(p, fn, a) or a
+                    if isinstance(a, ast.Constant) and isinstance(a.value, str) and a.value in WRITABLE:
                         res.inst(f"{fn.qualname}:{n.lineno} open({a.value!r})", ok=False)
                         res.find("Workspace", fn.prop or fn.name, f"open({a.value!r})", f"{fn.module.relpath}:{n.lineno}",
                                  "the workspace re-opens itself with a writable constant regardless of the mode it was given")
@@ -320,13 +419,13 @@ def rule_who(ctx) -> RuleResult:
                 if recv_self_ws:
                     member = fn.prop or fn.name
                     if isinstance(n.ctx, ast.Store):
-                        ok = member in geoh5_store_ok
+                        ok = via(fn, ws_member(geoh5_store_ok))
                         res.inst(f"Workspace.{member}:{n.lineno} stores self._geoh5", ok=ok)
                         if not ok:
                             res.find("Workspace", member, "stores self._geoh5", f"{fn.module.relpath}:{n.lineno}",
                                      "the file handle is replaced outside open()/h5file: its mode escapes Workspace.open's policy")
                 elif foreign:
-                    ok = fn.qualname.endswith("fetch_active_workspace")
+                    ok = via(fn, lambda f: f.cls is None and f.name == "fetch_active_workspace")
                     res.inst(f"{fn.qualname}:{n.lineno} reads {unparse(n)}", ok=ok)
                     if not ok:
                         res.find(fn.cls.name if fn.cls else fn.module.short, fn.prop or fn.name, f"access to {unparse(n)}",
@@ -341,7 +440,7 @@ def rule_who(ctx) -> RuleResult:
                 elif isinstance(n, ast.Call) and isinstance(n.func, ast.Attribute):
                     base = n.func.value
                 if isinstance(base, ast.Attribute) and base.attr == "_geoh5" and isinstance(base.value, ast.Name) and base.value.id == fn.self_name:
-                    ok = member in geoh5_use_ok
+                    ok = via(fn, ws_member(geoh5_use_ok))
                     res.inst(f"Workspace.{member}:{n.lineno} uses raw handle {unparse(n)[:40]}", ok=ok)
                     if not ok:
                         res.find("Workspace", member, f"raw handle use {unparse(n)[:40]}", f"{fn.module.relpath}:{n.lineno}",
@@ -350,6 +449,56 @@ def rule_who(ctx) -> RuleResult:
     if pos < 30:
         raise AnalysisError(f"C10.WHO: matcher found only {pos} mutation sites in the writer (floor 30): matcher broken")
     return res
+
+
+def _open_file_sites(ctx, fn, bindings, in_handler, stack, out):
+    """Every h5py.File(...) call that Workspace.open runs — in its own body or in a private helper (followed through the
+    helper's parameters): (function, call, sources of the mode argument, runs as part of an except-handler?)."""
+    p = ctx.p
+    handler = set()
+    for n in ast.walk(fn.node):
+        if isinstance(n, ast.ExceptHandler):
+            for b in n.body:
+                handler |= set(ast.walk(b))
+    for c in ast.walk(fn.node):
+        if not isinstance(c, ast.Call):
+            continue
+        h = in_handler or c in handler
+        if _is_h5py_file(p, fn, c):
+            arg = c.args[1] if len(c.args) > 1 else next((kw.value for kw in c.keywords if kw.arg == "mode"), None)
+            srcs = mode_sources(ctx, fn, arg, bindings) if arg is not None else {"?<default>"}
+            out.append((fn, c, arg, srcs, h))
+            continue
+        t = callee_of(p, fn, c)
+        if t is not None and all(t.node is not s.node for s in stack) and len(stack) < 6:
+            b = {prm: mode_sources(ctx, fn, arg, bindings) for prm, arg in bind_args(fn, c, t).items()}
+            _open_file_sites(ctx, t, b, h, stack + (t,), out)
+    return out
+
+
+def _caller_sources(ctx, fn, e, _depth=0) -> set:
+    """Sources of a mode expression; parameters of a private helper are followed to the helper's call sites."""
+    if not is_private_helper(fn) or _depth > 4:
+        return mode_sources(ctx, fn, e)
+    p = ctx.p
+    sites = []
+    for r in entry_roots(ctx, fn, stop=lambda f: f.node is not fn.node):
+        if r is TOPLEVEL:
+            return mode_sources(ctx, fn, e) | {"?referenced at module level"}
+        if r.node is fn.node:
+            continue
+        for c in ast.walk(r.node):
+            if isinstance(c, ast.Call):
+                t = callee_of(p, r, c)
+                if t is not None and t.node is fn.node:
+                    sites.append((r, c))
+    if not sites:
+        return mode_sources(ctx, fn, e)
+    out = set()
+    for r, c in sites:
+        b = {prm: _caller_sources(ctx, r, arg, _depth + 1) for prm, arg in bind_args(r, c, fn).items()}
+        out |= mode_sources(ctx, fn, e, b)
+    return out
 
 
 def rule_open(ctx) -> RuleResult:
@@ -362,39 +511,28 @@ def rule_open(ctx) -> RuleResult:
     )
     p = ctx.p
     op = p.func("Workspace.open")
-    files = [n for n in ast.walk(op.node) if isinstance(n, ast.Call) and chain(n.func) == ["h5py", "File"]]
+    files = _open_file_sites(ctx, op, None, False, (op,), [])
     if len(files) < 1:
         raise AnalysisError("Workspace.open: h5py.File call not found")
-    # reaching definitions of `mode` inside open(): parameter or self._mode
-    mode_srcs = set()
-    for n in ast.walk(op.node):
-        if isinstance(n, ast.Assign) and any(isinstance(t, ast.Name) and t.id == "mode" for t in n.targets):
-            mode_srcs.add(unparse(n.value))
-    ok_src = mode_srcs <= {"self._mode", "self.mode"}
-    in_handler = set()
-    for n in ast.walk(op.node):
-        if isinstance(n, ast.ExceptHandler):
-            for c in ast.walk(n):
-                in_handler.add(c)
-    for c in files:
-        a = c.args[1] if len(c.args) > 1 else None
+    own_mode = {"<arg:open:mode>", "self._mode", "self.mode", "'r'"}
+    for fn, c, a, srcs, in_handler in files:
         txt = unparse(a)
-        if c in in_handler:
-            ok = txt == "'r'"
+        if in_handler:
+            ok = srcs == {"'r'"}
             res.inst(f"Workspace.open fallback h5py.File(..., {txt})", nontrivial=True, ok=ok)
             if not ok:
-                res.find("Workspace", "open", f"fallback opens with {txt}", f"{op.module.relpath}:{c.lineno}",
+                res.find("Workspace", "open", f"fallback opens with {txt}", f"{fn.module.relpath}:{c.lineno}",
                          "the OSError fallback must be read-only; anything else silently upgrades the handle")
         else:
-            ok = (txt == "mode" and ok_src) or txt == "'r'"
-            res.inst(f"Workspace.open h5py.File(..., {txt}) with mode sources {sorted(mode_srcs)}", nontrivial=True, ok=ok)
+            ok = srcs <= own_mode
+            res.inst(f"Workspace.open h5py.File(..., {txt}) with mode sources {sorted(srcs)}", nontrivial=True, ok=ok)
             if not ok:
-                res.find("Workspace", "open", f"opens with {txt}", f"{op.module.relpath}:{c.lineno}",
+                res.find("Workspace", "open", f"opens with {txt}", f"{fn.module.relpath}:{c.lineno}",
                          "open() chooses a mode that is neither its argument nor the workspace's configured mode")
     # default of fetch_active_workspace / fetch_h5_handle / _io_call
     for spec in ("shared/utils.py:fetch_active_workspace", "shared/utils.py:fetch_h5_handle", "Workspace._io_call"):
         fn = p.func(spec)
-        d = _default_of(fn, "mode")
+        d = _default_of(p, fn, "mode")
         ok = d == "'r'"
         res.inst(f"{fn.qualname}: default mode {d}", ok=ok)
         if not ok:
@@ -427,11 +565,17 @@ def rule_open(ctx) -> RuleResult:
                     mode = kw.value
             if kind == "fetch_active_workspace(" and len(n.args) > 1:
                 mode = n.args[1]
-            txt = unparse(mode) if mode is not None else "<default>"
-            ok = mode is None or txt == "'r'" or (isinstance(mode, ast.Name) and fn.name == "fetch_active_workspace")
+            cv = const_value(p, fn, mode) if mode is not None else None
+            txt = (repr(cv.value) if cv is not None else unparse(mode)) if mode is not None else "<default>"
+            ok = mode is None or txt == "'r'"
+            if not ok and cv is None:
+                # fetch_active_workspace (or a private helper entered only from it) re-opens with the mode it was asked for
+                srcs = _caller_sources(ctx, fn, mode)
+                ok = srcs <= {"'r'", "<arg:fetch_active_workspace:mode>"} and \
+                    entered_only_through(ctx, fn, lambda f: f.cls is None and f.name == "fetch_active_workspace")
             if kind == "Workspace(" and mode is None:
                 # constructing a workspace with the default mode on behalf of a reader
-                ok = fn.name not in ("path2workspace",)
+                ok = not any(x is not TOPLEVEL and x.name == "path2workspace" for x in entry_roots(ctx, fn))
             res.inst(f"{fn.qualname}:{n.lineno} {kind} mode={txt}", ok=ok)
             if not ok:
                 res.find(fn.cls.name if fn.cls else fn.module.short, fn.prop or fn.name, f"{kind} mode={txt}",
@@ -443,17 +587,78 @@ def _is_builtin_open(call) -> bool:
     return isinstance(call.func, ast.Name)
 
 
-def _default_of(fn, name):
+def _default_of(p, fn, name):
+    """Text of the default of parameter `name` (a hoisted constant is shown by its value)."""
     a = fn.node.args
     pos = a.posonlyargs + a.args
     defaults = [None] * (len(pos) - len(a.defaults)) + list(a.defaults)
-    for arg, d in zip(pos, defaults):
+    for arg, d in list(zip(pos, defaults)) + list(zip(a.kwonlyargs, a.kw_defaults)):
         if arg.arg == name:
-            return unparse(d) if d is not None else None
-    for arg, d in zip(a.kwonlyargs, a.kw_defaults):
-        if arg.arg == name:
-            return unparse(d) if d is not None else None
+            if d is None:
+                return None
+            c = d if isinstance(d, ast.Constant) else (_module_const(p, fn, d))
+            return unparse(c if c is not None else d)
     return None
+
+
+def _module_const(p, fn, e):
+    """Module-level constant named by a default value (defaults are evaluated in the module's scope)."""
+    if isinstance(e, ast.Name):
+        r = p.resolve_name(fn.module, e.id)
+        if r and r[0] == "assign" and isinstance(r[1][1], ast.Constant):
+            return r[1][1]
+    return None
+
+
+def _reader_taint(node, seeds, ret_handles) -> set:
+    """Names of a reader method that denote the file handle or a node of it: the seeds (handle parameters),
+    `with fetch_h5_handle(<handle>) as h5file`, and everything subscripted / .get() from them."""
+    tainted = set(seeds)
+    changed = True
+    while changed:
+        changed = False
+        for n in ast.walk(node):
+            if isinstance(n, (ast.With,)):
+                for it in n.items:
+                    if it.optional_vars is not None and isinstance(it.optional_vars, ast.Name) and _mentions(it.context_expr, tainted):
+                        if it.optional_vars.id not in tainted:
+                            tainted.add(it.optional_vars.id)
+                            changed = True
+            if isinstance(n, (ast.Assign, ast.AnnAssign)) and n.value is not None:
+                tgs = n.targets if isinstance(n, ast.Assign) else [n.target]
+                for t in tgs:
+                    if isinstance(t, ast.Name) and t.id not in tainted and _handle_expr(n.value, tainted, ret_handles):
+                        tainted.add(t.id)
+                        changed = True
+            if isinstance(n, (ast.For, ast.comprehension)):
+                # children of a group: `for child in handle.values()` / `for key, child in handle.items()`
+                it = n.iter
+                if isinstance(it, ast.Call) and isinstance(it.func, ast.Attribute) and it.func.attr in ("values", "items") \
+                        and _handle_expr(it.func.value, tainted, ret_handles):
+                    tg = n.target
+                    if it.func.attr == "items" and isinstance(tg, ast.Tuple) and len(tg.elts) == 2:
+                        tg = tg.elts[1]
+                    for x in ast.walk(tg):
+                        if isinstance(x, ast.Name) and x.id not in tainted:
+                            tainted.add(x.id)
+                            changed = True
+    return tainted
+
+
+def _reader_mutations(node, tainted, ret_handles) -> list:
+    bad = []
+    for n in ast.walk(node):
+        if isinstance(n, (ast.Assign, ast.AugAssign, ast.Delete)):
+            tg = n.targets if not isinstance(n, ast.AugAssign) else [n.target]
+            for t in tg:
+                if isinstance(t, ast.Subscript) and _handle_expr(t.value, tainted, ret_handles):
+                    bad.append((n, f"store/delete {unparse(t)[:40]}"))
+        if isinstance(n, ast.Call) and isinstance(n.func, ast.Attribute) and n.func.attr in (H5_MUTATORS | {"move", "copy", "clear", "pop", "update"}):
+            if _handle_expr(n.func.value, tainted, ret_handles) or (
+                isinstance(n.func.value, ast.Attribute) and n.func.value.attr == "attrs" and _handle_expr(n.func.value.value, tainted, ret_handles)
+            ):
+                bad.append((n, f"mutating call {unparse(n.func)[:40]}"))
+    return bad
 
 
 def rule_reader(ctx) -> RuleResult:
@@ -465,42 +670,64 @@ def rule_reader(ctx) -> RuleResult:
     )
     p = ctx.p
     R = p.cls("H5Reader")
-    for name, fn in R.methods.items():
-        # taint: the `file` parameter, `with fetch_h5_handle(file) as h5file`, and everything subscripted from them
-        tainted = set()
+    methods = dict(R.methods)
+
+    def own_params(fn):
         params = fn.params
         if fn.kind in ("classmethod", "method") and params:
             params = params[1:]
-        if params:
-            tainted.add(params[0])
-        changed = True
-        while changed:
-            changed = False
-            for n in ast.walk(fn.node):
-                if isinstance(n, (ast.With,)):
-                    for it in n.items:
-                        if it.optional_vars is not None and isinstance(it.optional_vars, ast.Name) and _mentions(it.context_expr, tainted):
-                            if it.optional_vars.id not in tainted:
-                                tainted.add(it.optional_vars.id)
-                                changed = True
-                if isinstance(n, ast.Assign) and len(n.targets) == 1 and isinstance(n.targets[0], ast.Name):
-                    if _handle_expr(n.value, tainted) and n.targets[0].id not in tainted:
-                        tainted.add(n.targets[0].id)
+        return params
+
+    # which parameters are handles: the first one of every public method (`file` / a group handle); for a private helper
+    # that is called only inside the reader, the parameters that receive a handle at some call site (an array read with
+    # [:] / [()] and handed to a helper for decoding is a copy in memory, not a node of the file)
+    seeds = {}
+    by_call = set()
+    for name, fn in methods.items():
+        params = own_params(fn)
+        users = [r for r in entry_roots(ctx, fn, stop=lambda f, fn=fn: f.node is not fn.node) if r is TOPLEVEL or r.node is not fn.node]
+        internal = is_private_helper(fn) and bool(users) and all(r is not TOPLEVEL and r.cls is R for r in users)
+        if internal:
+            by_call.add(name)
+            seeds[name] = set()
+        else:
+            seeds[name] = set(params[:1])
+    views = {name: ctx.view(fn) for name, fn in methods.items()}
+    taint = {}
+    ret_handles: set = set()
+    for _round in range(8):
+        changed = False
+        for name, fn in methods.items():
+            t = _reader_taint(views[name].node, seeds[name], ret_handles) | _reader_taint(fn.node, seeds[name], ret_handles)
+            if t != taint.get(name):
+                taint[name] = t
+                changed = True
+            if name in by_call and name not in ret_handles:
+                if any(isinstance(r, ast.Return) and r.value is not None and _handle_expr(r.value, t, ret_handles) for r in ast.walk(fn.node)):
+                    ret_handles.add(name)
+                    changed = True
+        for name, fn in methods.items():
+            for c in ast.walk(fn.node):
+                if not isinstance(c, ast.Call):
+                    continue
+                t = callee_of(p, fn, c)
+                if t is None or t.cls is not R or t.name not in by_call:
+                    continue
+                for prm, arg in bind_args(fn, c, t).items():
+                    if prm not in seeds[t.name] and prm in own_params(t) and _handle_expr(arg, taint[name], ret_handles):
+                        seeds[t.name].add(prm)
                         changed = True
-                if isinstance(n, ast.For) and isinstance(n.target, ast.Name):
-                    pass
-        bad = []
-        for n in ast.walk(fn.node):
-            if isinstance(n, (ast.Assign, ast.AugAssign, ast.Delete)):
-                tg = n.targets if not isinstance(n, ast.AugAssign) else [n.target]
-                for t in tg:
-                    if isinstance(t, ast.Subscript) and _handle_expr(t.value, tainted):
-                        bad.append((n, f"store/delete {unparse(t)[:40]}"))
-            if isinstance(n, ast.Call) and isinstance(n.func, ast.Attribute) and n.func.attr in (H5_MUTATORS | {"move", "copy", "clear", "pop", "update"}):
-                if _handle_expr(n.func.value, tainted) or (isinstance(n.func.value, ast.Attribute) and n.func.value.attr == "attrs" and _handle_expr(n.func.value.value, tainted)):
-                    bad.append((n, f"mutating call {unparse(n.func)[:40]}"))
-        res.inst(f"H5Reader.{name}: handle names {sorted(tainted)}", nontrivial=bool(tainted), ok=not bad)
-        for n, what in bad:
+        if not changed:
+            break
+    for name, fn in methods.items():
+        tainted = taint[name]
+        bad = {}
+        for node in (fn.node, views[name].node):
+            for n, what in _reader_mutations(node, tainted, ret_handles):
+                bad.setdefault((n.lineno, what), (n, what))
+        shown = sorted(x for x in tainted if "__i" not in x)
+        res.inst(f"H5Reader.{name}: handle names {shown}", nontrivial=bool(tainted), ok=not bad)
+        for n, what in bad.values():
             res.find("H5Reader", name, what, f"{fn.module.relpath}:{n.lineno}",
                      "the reader mutates a node of the file it was asked to read")
     return res
@@ -510,9 +737,10 @@ def _mentions(expr, names) -> bool:
     return any(isinstance(n, ast.Name) and n.id in names for n in ast.walk(expr))
 
 
-def _handle_expr(e, tainted) -> bool:
+def _handle_expr(e, tainted, ret_handles=None) -> bool:
     """Name / subscript / .get() / attribute chain rooted at a tainted name,
-    without materialisation ([:] / [()] slices are arrays, not handles)."""
+    without materialisation ([:] / [()] slices are arrays, not handles).
+    `ret_handles`: names of private helpers that return a node of the handle they are given."""
     while True:
         if isinstance(e, ast.Name):
             return e.id in tainted
@@ -525,8 +753,34 @@ def _handle_expr(e, tainted) -> bool:
             e = e.func.value
         elif isinstance(e, ast.Attribute) and e.attr in ("attrs", "parent", "file"):
             e = e.value
+        elif ret_handles and isinstance(e, ast.Call) and (e.func.attr if isinstance(e.func, ast.Attribute) else getattr(e.func, "id", None)) in ret_handles:
+            return any(_handle_expr(a, tainted, ret_handles) for a in list(e.args) + [k.value for k in e.keywords])
         else:
             return False
+
+
+_EXTERNAL_EFFECTS = {
+    "subprocess.run", "subprocess.call", "subprocess.check_call", "subprocess.check_output", "subprocess.Popen",
+    "shutil.move", "shutil.copy", "shutil.copyfile", "shutil.copy2", "os.replace", "os.remove", "os.rename", "os.unlink", "os.system",
+}
+
+
+def _close_effect(p, fn, n) -> bool:
+    """A call by which Workspace.close changes the file: a save through the gateway, or the h5repack rewrite."""
+    if not isinstance(n, ast.Call):
+        return False
+    f = unparse(n.func)
+    r = p.resolve_expr(fn.module, n.func) if chain(n.func) else None
+    if (r and r[0] == "external" and r[1] in _EXTERNAL_EFFECTS) or f in _EXTERNAL_EFFECTS or f.endswith(".unlink"):
+        return True
+    if isinstance(n.func, ast.Attribute) and n.func.attr in ("_io_call", "update_attribute"):
+        if n.func.attr == "_io_call" and n.args:
+            ch = chain(n.args[0])
+            rr = p.resolve_expr(fn.module, n.args[0].value) if ch and isinstance(n.args[0], ast.Attribute) else None
+            if rr and rr[0] == "class" and rr[1].name == "H5Reader":
+                return False
+        return "H5Reader" not in unparse(n)
+    return False
 
 
 def rule_repack(ctx) -> RuleResult:
@@ -538,66 +792,35 @@ def rule_repack(ctx) -> RuleResult:
         floor=2,
     )
     p = ctx.p
-    cl = p.func("Workspace.close")
-    mode_names = {a.targets[0].id for a in ast.walk(cl.node) if isinstance(a, ast.Assign) and isinstance(a.targets[0], ast.Name)
-                  and "mode in" in unparse(a.value) and "'r+'" in unparse(a.value)}
+    raw = p.func("Workspace.close")
+    cl = ctx.view(raw)
+    # decided on paths: assume the handle was opened 'r'; no effect may then be reachable.  The mode may be read once into
+    # a local / an attribute, tested positively (nested ifs) or negatively (guard clauses), in close() or in a private helper.
+    paths = Paths(cl, texts=_handle_mode_facts(cl), project=p)
+    helpers_with_effects = {}
 
-    def writable_test(t) -> bool:
-        for x in ast.walk(t):
-            if isinstance(x, ast.Compare) and "mode" in unparse(x.left) and isinstance(x.ops[0], ast.In) and "'r+'" in unparse(x.comparators[0]):
-                return True
-            if isinstance(x, ast.Name) and x.id in mode_names:
-                # only as a conjunct (not under `not` / `or`)
-                return True
-        return False
-
-    def positive(t) -> bool:
-        """the writable condition is a conjunct of the test (so the body runs only when writable)"""
-        if isinstance(t, ast.BoolOp) and isinstance(t.op, ast.And):
-            return any(positive(v) for v in t.values)
-        if isinstance(t, (ast.Compare, ast.Name)):
-            return writable_test(t)
-        return False
-
-    effects = []
-    for n in ast.walk(cl.node):
+    def is_effect(n) -> bool:
+        if _close_effect(p, cl, n):
+            return True
         if isinstance(n, ast.Call):
-            f = unparse(n.func)
-            if f in ("subprocess.run", "subprocess.call", "subprocess.check_call", "shutil.move", "os.replace", "os.remove") or f.endswith(".unlink") \
-                    or (isinstance(n.func, ast.Attribute) and n.func.attr in ("_io_call", "update_attribute") and "H5Reader" not in unparse(n)):
-                effects.append(n)
+            # a private helper that could not be expanded in place: an effect if its own code (or its helpers') has one
+            t = callee_of(p, cl, n)
+            if t is not None and t.node is not raw.node:
+                key = id(t.node)
+                if key not in helpers_with_effects:
+                    helpers_with_effects[key] = any(
+                        _close_effect(p, h, x) for h in helper_closure(p, t) if h.node is not raw.node for x in ast.walk(h.node)
+                    )
+                return helpers_with_effects[key]
+        return False
+
+    live = paths.g.reachable()
+    effects = [(n, e) for n, hits in paths.nodes_with(is_effect) if n in live for e in hits]
     if len(effects) < 2:
         raise AnalysisError("Workspace.close: save / repack effects not found")
-
-    def ancestors_ifs(target):
-        out = []
-
-        def rec(stmts, stack):
-            for s_ in stmts:
-                if any(x is target for x in ast.walk(s_)):
-                    if isinstance(s_, ast.If):
-                        inb = any(x is target for b in s_.body for x in ast.walk(b))
-                        if any(x is target for x in ast.walk(s_.test)):
-                            out.extend(stack)
-                            return True
-                        return rec(s_.body if inb else s_.orelse, stack + [(s_.test, inb)])
-                    for fld in ("body", "orelse", "finalbody"):
-                        blk = getattr(s_, fld, None)
-                        if isinstance(blk, list) and blk and any(x is target for b in blk if isinstance(b, ast.AST) for x in ast.walk(b)):
-                            return rec(blk, stack)
-                    for h in getattr(s_, "handlers", []):
-                        if any(x is target for x in ast.walk(h)):
-                            return rec(h.body, stack)
-                    out.extend(stack)
-                    return True
-            return False
-
-        rec(cl.node.body, [])
-        return out
-
-    for e in effects:
-        ifs = ancestors_ifs(e)
-        ok = any(inb and positive(t) for t, inb in ifs)
+    reach = paths.reachable()
+    for n, e in effects:
+        ok = n not in reach
         res.inst(f"Workspace.close:{e.lineno} {unparse(e.func)}(...) only when the handle is writable", nontrivial=True, ok=ok)
         if not ok:
             res.find("Workspace", "close", f"{unparse(e.func)}(...) runs whatever the mode of the handle", f"{cl.module.relpath}:{e.lineno}",
